@@ -135,6 +135,9 @@ func JSONObject(t *rapid.T, depth int) *refjcs.Value {
 	seen := map[string]bool{}
 	for i := 0; i < n; i++ {
 		name := JSONString(t)
+		if len(v.Obj) > 0 && rapid.IntRange(0, 3).Draw(t, "siblingName") == 0 {
+			name = siblingName(t, v.Obj[rapid.IntRange(0, len(v.Obj)-1).Draw(t, "siblingOf")].Name)
+		}
 		if seen[name] {
 			continue
 		}
@@ -150,4 +153,23 @@ func JSONTop(t *rapid.T, depth int) *refjcs.Value {
 		return JSONArray(t, depth)
 	}
 	return JSONObject(t, depth)
+}
+
+// siblingName derives a member name from an earlier one by changing one bit of one code point (or appending one
+// when the name is empty), so that ordering decisions between names that differ late and little are frequent.
+func siblingName(t *rapid.T, of string) string {
+	rs := []rune(of)
+	if len(rs) == 0 {
+		return string(rune(rapid.SampledFrom([]int{0x41, 0xe000, 0x10000, 0x1f640}).Draw(t, "siblingRune")))
+	}
+	i := rapid.IntRange(0, len(rs)-1).Draw(t, "siblingPos")
+	r := rs[i] ^ (1 << uint(rapid.IntRange(0, 20).Draw(t, "siblingBit")))
+	if r > 0x10ffff || (r >= 0xd800 && r <= 0xdfff) {
+		r = rs[i] ^ 1
+	}
+	if r >= 0xd800 && r <= 0xdfff {
+		r = 0xfffd
+	}
+	rs[i] = r
+	return string(rs)
 }
